@@ -4,4 +4,5 @@ CONSTANTS
   Catalogue <- MCCatalogue
   GuardEnabled = FALSE
   NoThread = 0
+  RecursiveScrape = FALSE
 INVARIANTS Linearizable NoLostAnnounce NoOrphanWrite LockSanity
